@@ -1,11 +1,11 @@
 #!/bin/bash
-# tools/sweep.sh [tier] [seed...] — runs every registered check on the current tree and prints one line per check.
+# tools/sweep.sh [tier] [seed...] — runs every registered check (or those named in $CHECKS) on the current tree and prints one line per check.
 cd "$(dirname "$0")/.."
 TIER="${1:-quick}"; shift
 SEEDS="${@:-1}"
 rc=0
 for s in $SEEDS; do
-  for id in C01 C02 C03 C04 C05 C06 C07 C08 C09 C10 C11 C12 C13 C14 C15 C16 C17 C18 C19 C20; do
+  for id in ${CHECKS:-C01 C02 C03 C04 C05 C06 C07 C08 C09 C10 C11 C12 C13 C14 C15 C16 C17 C18 C19 C20}; do
     out=$(VERIF_SEED=$s bin/check $id $TIER 2>&1); code=$?
     line=$(echo "$out" | grep "^$id $TIER" | tail -1)
     echo "seed=$s exit=$code $line"
